@@ -109,6 +109,7 @@ def run(chk):
     chk.section("augassign-index", lambda: augassign_index(chk))
     chk.section("iteration", lambda: iteration(chk))
     chk.section("unwrap-helpers", lambda: unwrap_helpers(chk))
+    chk.section("array-comprehension", lambda: array_comprehension(chk))
     chk.expected_min_obligations = 20
     chk.assumptions += [
         "HUGR op semantics (hugr std collections.array / borrow_arr, prelude): array.get returns Some(a[i]) iff i < n and the unchanged array; array.set returns Right((old, a[i:=v])) iff i < n; borrow_array.borrow(a, i) panics unless i < n and element i is present, yields the element and marks it lent; borrow_array.return panics unless i < n and element i is lent; pop_left/pop_right remove the first/last element; convert itousize reinterprets the 64-bit integer as unsigned",
@@ -863,3 +864,83 @@ except Exception as ex:
 shutil.rmtree(d, ignore_errors=True)
 print(json.dumps(out))
 '''
+
+
+def array_comprehension(chk):
+    """ExprCompiler.visit_DesugaredArrayComp (compiler/expr_compiler.py): `array(elt for x in it)` is an
+    array of the generated elements IN GENERATION ORDER.  Real code against a recording builder: before
+    the loop the result is a fully-borrowed (empty) array of the static length and a counter 0; the array
+    and the counter are the loop-carried variables of the generator loop; in every iteration the element
+    is put into the array AT THE COUNTER (barray_return(array, usize(counter), element)) and the counter
+    becomes counter + 1; the value of the expression is the array after the loop.  By induction the k-th
+    generated element is element k."""
+    from pyvc.loops import NativeCM
+    EC = "guppylang_internals.compiler.expr_compiler"
+    e = mk_engine(chk)
+    e.func_info(EC, "ExprCompiler.visit_DesugaredArrayComp")
+    m = e.module(EC)
+
+    def t(it):
+        log = []
+        store = {}
+        it.ctx.mod_globals(m)["tmp_vars"] = [f"%tmp{k}" for k in range(20)]
+        OT = ClassVal("OpaqueType", builtin=True)
+        VC = ClassVal("Variable", builtin=True)
+        g_ = it.ctx.mod_globals(m)
+        g_["OpaqueType"] = OT
+        g_["Variable"] = Builtin("Variable", lambda name, ty, node: SObj(VC, {"name": name, "ty": ty, "defined_at": node}))
+        e.models["guppylang_internals.ast_util:get_type"] = lambda it2, a, k: SObj(OT, {"args": [], "defn": "array"})
+        e.models["guppylang_internals.std._internal.compiler.array:barray_new_all_borrowed"] = lambda it2, a, k: ("new_all_borrowed", a[0], a[1])
+        e.models["guppylang_internals.std._internal.compiler.array:barray_return"] = lambda it2, a, k: ("return", a[0], a[1])
+        e.models["guppylang_internals.std._internal.compiler.arithmetic:convert_itousize"] = lambda it2, a, k: "itousize"
+        e.models["guppylang_internals.tys.builtin:int_type"] = lambda it2, a, k: "INT"
+        e.ext_models["hugr.std.int.IntVal"] = lambda it2, a, k: ("IntVal", a[0], k.get("width"))
+        from .bindings import rec
+        for nm in ("TypeTypeArg", "BoundedNatArg", "ListArg", "TupleArg", "Tuple", "Sum", "Option", "Either", "FunctionType", "PolyFuncType", "TypeBound"):
+            e.ext_models.setdefault(f"hugr.tys.{nm}", rec(nm))
+        builder = SObj(ClassVal("Builder", builtin=True), {})
+        builder.fields["add_op"] = Builtin("add_op", lambda op, *w: (log.append(("op", op, list(w))), ("wire", op, tuple(w)))[1])
+        builder.fields["load"] = Builtin("load", lambda v: ("const", v))
+        dfg = it.exec_snippet(m, "class _D:\n    def __init__(self, b, store):\n        self.builder = b\n        self.store = store\n    def __getitem__(self, k):\n        return self.store[k.name]\n    def __setitem__(self, k, v):\n        self.store[k.name] = v\nd = _D(b, store)\n", {"b": builder, "store": store})["d"]
+        ECc = it.lookup_global(m, "ExprCompiler")
+        self_ = SObj(ECc, {"ctx": "CTX", "dfg": dfg, "builder": builder})
+
+        def build_generators(gens, loop_vars):
+            log.append(("generators", list(gens), [v.fields["name"] for v in loop_vars], dict(store)))
+            return NativeCM(lambda: log.append(("loop-enter",)), lambda *a: (log.append(("loop-exit", dict(store))), False)[1])
+        self_.fields["_build_generators"] = Builtin("_build_generators", build_generators)
+        self_.fields["visit"] = Builtin("visit", lambda n: (log.append(("elt", n)), "ELT-WIRE")[1])
+        self_.fields["_build_method_call"] = Builtin("_build_method_call", lambda ty, meth, node, args, targs: ([("call", ty, meth, tuple(args))], []))
+        length = SObj(ClassVal("Const", builtin=True), {"to_arg": Builtin("to_arg", lambda: SObj(ClassVal("Arg", builtin=True), {"to_hugr": Builtin("to_hugr", lambda c: "LEN")}))})
+        node = SObj(ClassVal("DesugaredArrayComp", builtin=True), {"elt": "ELT", "generator": "GEN", "length": length,
+                                                                   "elt_ty": SObj(ClassVal("Ty", builtin=True), {"to_hugr": Builtin("to_hugr", lambda c: "ELT-TY")})})
+        f, _ = ECc.lookup("visit_DesugaredArrayComp")
+        r = it.call(f, [self_, node], {})
+        return r, log, store
+    paths = e.explore(t)
+
+    def post(p):
+        if p.kind != "return":
+            return z3.BoolVal(False)
+        r, log, store = p.value
+        gens = [x for x in log if x[0] == "generators"]
+        ok = len(gens) == 1 and gens[0][1] == ["GEN"] and len(gens[0][2]) == 2
+        if not ok:
+            return z3.BoolVal(False)
+        arr_name, cnt_name = gens[0][2]
+        before = gens[0][3]
+        new = ("new_all_borrowed", "ELT-TY", "LEN")
+        ok = before.get(arr_name) == ("wire", new, ()) and before.get(cnt_name) == ("const", ("IntVal", 0, 6))
+        exits = [x for x in log if x[0] == "loop-exit"]
+        ok = ok and len(exits) == 1
+        after = exits[0][1] if exits else {}
+        idx = ("wire", "itousize", (before.get(cnt_name),))
+        ok = ok and after.get(arr_name) == ("wire", ("return", "ELT-TY", "LEN"), (before.get(arr_name), idx, "ELT-WIRE"))
+        ok = ok and after.get(cnt_name) == ("call", "INT", "__add__", (before.get(cnt_name), ("const", ("IntVal", 1, 6))))
+        ok = ok and [x for x in log if x[0] == "elt"] == [("elt", "ELT")] and r == after.get(arr_name)
+        order = [x[0] for x in log if x[0] in ("generators", "loop-enter", "elt", "loop-exit")]
+        ok = ok and order == ["generators", "loop-enter", "elt", "loop-exit"]
+        return z3.BoolVal(bool(ok))
+    chk.prove_paths("visit_DesugaredArrayComp:empty-array-and-counter-0-before-the-loop/\\element-stored-at-the-counter/\\counter+1/\\array-and-counter-are-the-loop-variables/\\result-is-the-array-after-the-loop", paths, post,
+                    func=f"{EC}:ExprCompiler.visit_DesugaredArrayComp", replay=lambda m_: {"script": REPLAY_ITER, "input": {}})
+    chk.use_engine(e)
